@@ -27,6 +27,10 @@ class PersistentWorker(Worker):
         if _results_pipe is None:
             raise ValueError('_results_pipe should not be None')
         self._results_pipe = _results_pipe
+        # child-side state, (re)set in _init_child; defined up-front so that cleaning up works
+        # even if the child is terminated before it had a chance to initialize itself
+        self._counter = 0
+        self._stop = False
         super().__init__(target, **kwargs)
         self._closed = False
 
